@@ -5,6 +5,7 @@ from lib import Case, hx, enc_attrs, dec_attrs, doc_case, unhx
 import xmlcanon, scene, docgen
 from scene import fmt, dy
 
+DOC_MODEL = True     # every generated document also runs through the composed Coq model of the whole transform
 RULE = ('(a) hook process_text_attr on stand-alone shapes (rect/circle/ellipse/line/text/box/point) x text strings over a rich '
         'alphabet (Unicode, XML specials, literal and escaped \\n, empty / leading / trailing lines) x 9 locations + 4 edge forms x '
         'inside/outside/vertical/pre flags x text-offset / text-dx / text-dy / text-dxy / text-lsp / text-style / presentation attributes: '
